@@ -99,22 +99,22 @@ pub fn run(tier: Tier, args: &[String]) -> i32 {
     // then the requested depth with at most `max_out` requests outstanding; which of the two was
     // completed is reported
     // (depth, bound on outstanding requests, undecodable-answer step in the alphabet)
-    // the reduced case goes deeper with the menu restricted to {Single, Two, Sub}: the whole
+    // the reduced case goes deeper with the menu restricted to {Single, Two, Sub, Quiet}: the whole
     // life of a subscription (items, consumer ends by itself or is aborted, late item answered
     // FinishedMany) followed by requests that reuse its id and their answers
-    let deep_menu = vec![0usize, 1, 2];
+    let deep_menu = vec![0usize, 1, 2, 10];
     let deep_depth = mc_kit::arg_value(args, "--deep-depth")
         .and_then(|s| s.parse().ok())
-        .unwrap_or(tier.pick(6, 8));
+        .unwrap_or(tier.pick(6, 7));
     let plan_full: Vec<(usize, usize, bool, Option<Vec<usize>>)> = match tier {
         Tier::Quick => vec![
-            (depth, max_out, true, None),
+            (depth, max_out, true, Some(crate::app::main_menu())),
             (deep_depth, usize::MAX, true, Some(deep_menu)),
         ],
         Tier::Thorough => vec![
-            (depth.saturating_sub(1).max(1), usize::MAX, true, None),
+            (depth.saturating_sub(1).max(1), usize::MAX, true, Some(crate::app::main_menu())),
             (deep_depth, usize::MAX, true, Some(deep_menu)),
-            (depth, max_out, false, None),
+            (depth, max_out, false, Some(crate::app::main_menu())),
         ],
     };
     let plan: Vec<(usize, usize, bool)> =
@@ -127,7 +127,7 @@ pub fn run(tier: Tier, args: &[String]) -> i32 {
             all_completed = false;
             break;
         }
-        let reduced = menu.is_some();
+        let reduced = menu.as_ref().is_some_and(|m| m.len() < 10);
         let cfg = Cfg {
             kinds: LANES.to_vec(),
             depth: d,
@@ -195,9 +195,10 @@ pub fn run(tier: Tier, args: &[String]) -> i32 {
             "LTimer": "legacy timers: clear the two previous, set two new",
             "Kv": "kv set with shell-provided key/value; its answer triggers legacy get + render",
             "Http": "GET with 6 headers; its answer triggers a notification",
-            "Legacy": "legacy Platform request + legacy HTTP POST with 43 header lines (12 names x 3 values) and a body"
+            "Legacy": "legacy Platform request + legacy HTTP POST with 43 header lines (12 names x 3 values) and a body",
+            "Quiet": "only mutates the model (no effect, no render); part of the reduced-menu deep run"
         },
-        "history_alphabet": "menu event (10) | answer(k) for the k-th outstanding request in issue order, k over ALL outstanding requests (a stream item if that request is a stream) | undecodable-answer(k), at most once per history (every bridge must reject it; the twin's request is dropped if one-shot, left alone if stream); answer values are a function of (request, step number): unique per step, rotating through ok/error shapes",
+        "history_alphabet": "menu event (the 10 effectful ones in the main runs; {Single, Two, Sub, Quiet} in the reduced-menu deep run) | answer(k) for the k-th outstanding request in issue order, k over ALL outstanding requests (a stream item if that request is a stream) | undecodable-answer(k), at most once per history (every bridge must reject it; the twin's request is dropped if one-shot, left alone if stream); answer values are a function of (request, step number): unique per step, rotating through ok/error shapes",
         "lanes": LANES.iter().map(|l| l.name()).collect::<Vec<_>>(),
         "max_outstanding_bound": if completed_max_out == usize::MAX { json!("none") } else { json!(completed_max_out) },
         "counts_refer_to": format!("the last completed run: depth {completed_depth}"),
@@ -206,7 +207,7 @@ pub fn run(tier: Tier, args: &[String]) -> i32 {
         "distinct_outcomes": total.outcomes.len(),
         "outcomes": total.outcomes,
         "nodes_with_findings": total.failed_nodes,
-        "oracle": "per step and bridge: outcome class equals the twin's; decoded requests equal the twin's as a multiset (timer ids by the ordinal the app put in the payload, HTTP headers sorted by name); ids of simultaneously resolvable requests pairwise distinct; registry one-shot entries == outstanding one-shots; decoded view == twin's view (the view logs site<-value for every continuation)",
+        "oracle": "per step and bridge: outcome class equals the twin's; decoded requests equal the twin's as a multiset (timer ids by the ordinal the app put in the payload, HTTP headers sorted by name); ids of simultaneously resolvable requests pairwise distinct; registry one-shot entries == outstanding one-shots; the view is read THROUGH every bridge after EVERY step (also on replayed prefix steps and after rejected / undecodable steps) and the decoded view == twin's core.view() (the view logs site<-value for every continuation)",
         "canary": "twin answered with a different value than the bridges -> view-differs reported",
         "samples": samples,
     });
